@@ -190,7 +190,7 @@ Definition covers (keys : list nat) (v : vec) : Prop := forall i, ~ nthq v i == 
 Lemma pairs_getc g left right keys pr d v c :
   overlap left right keys = Ok pr -> wf_pkg left -> wf_pkg right ->
   NoDup keys -> (forall i, In i keys -> (i < psize right)%nat) -> covers keys v ->
-  length d = psize left -> (forall x y, y == 0 -> g x y == x) ->
+  length d = psize left -> (forall j y, y == 0 -> g (nthq d j) y == nthq d j) ->
   getc left (gen_pairs g d pr v) c == g (getc left d c) (getc right v c)
   \/ (index_of c (cas left) = None /\ getc right v c == 0).
 Proof.
@@ -221,11 +221,130 @@ Proof.
     + rewrite gen_pairs_other; [rewrite G0; reflexivity|].
       intros X. apply in_map_iff in X. destruct X as [[j' i'] [X1 X2]]. simpl in X1; subst j'.
       pose proof (SP _ _ X2) as Y. apply index_of_Some in Y. destruct Y as [_ Y].
-      rewrite NJ in Y. apply index_of_None in ER. apply ER. rewrite <- Y. apply nth_In.
+      rewrite NJ in Y. apply index_of_None in ER. apply ER. rewrite Y. apply nth_In.
       apply LT. rewrite <- MS. change i' with (snd (j, i')). apply in_map; auto.
   - right. split; auto. unfold getc. destruct (index_of c (cas right)) as [i|] eqn:ER; [|reflexivity].
     destruct (Qeq_dec (nthq v i) 0) as [Z|NZ]; auto. exfalso.
     apply CV in NZ. rewrite <- MS in NZ. apply in_map_iff in NZ.
     destruct NZ as [[j' i'] [X1 X2]]. simpl in X1; subst i'.
     pose proof (SP _ _ X2) as Y. destruct (index_of_Some _ _ _ ER) as [_ NI]. rewrite NI in Y. congruence.
+Qed.
+
+(* ---------- nonzero keys ---------- *)
+Lemma nz_keys_rows_nodup n rows : NoDup (nz_keys_rows n rows).
+Proof. unfold nz_keys_rows. apply NoDup_filter. apply seq_NoDup. Qed.
+Lemma nz_keys_rows_lt n rows i : In i (nz_keys_rows n rows) -> (i < n)%nat.
+Proof. unfold nz_keys_rows. intros H. apply filter_In in H. destruct H as [H _]. apply in_seq in H. lia. Qed.
+Lemma nz_keys_rows_covers n rows r : In r rows -> (length r <= n)%nat -> covers (nz_keys_rows n rows) r.
+Proof.
+  intros IN L i NZ. unfold nz_keys_rows. apply filter_In. split.
+  - apply in_seq. destruct (Nat.lt_ge_cases i (length r)); [lia|].
+    exfalso. apply NZ. rewrite nthq_overflow; auto. reflexivity.
+  - unfold any_nz. apply existsb_exists. exists r. split; auto.
+    apply negb_true_iff. apply qzerob_false. auto.
+Qed.
+Lemma nz_keys_covers v : covers (nz_keys v) v.
+Proof. apply nz_keys_rows_covers; [left; auto | lia]. Qed.
+
+(* ---------- "adds like": what adding an other-package row does, per chemical ---------- *)
+Definition adds_like (left : pkg) (vp : vec * list (nat * nat)) (f : nat -> Q) : Prop :=
+  forall d c, length d = psize left ->
+    getc left (add_pairs d (snd vp) (fst vp)) c == getc left d c + f c.
+
+Lemma getc_none p v c : index_of c (cas p) = None -> getc p v c = 0.
+Proof. intros H. unfold getc. rewrite H. reflexivity. Qed.
+
+Lemma overlap_adds_like left right keys pr v :
+  overlap left right keys = Ok pr -> wf_pkg left -> wf_pkg right ->
+  NoDup keys -> (forall i, In i keys -> (i < psize right)%nat) -> covers keys v ->
+  adds_like left (v, pr) (getc right v).
+Proof.
+  intros OV WL WR ND LT CV d c LD. simpl. rewrite add_pairs_gen.
+  destruct (pairs_getc Qplus left right keys pr d v c OV WL WR ND LT CV LD) as [H|[H1 H2]].
+  - intros j y Y. rewrite Y. lra.
+  - exact H.
+  - rewrite !getc_none by auto. rewrite H2. lra.
+Qed.
+
+Lemma add_others_getc left od fs d c :
+  Forall2 (adds_like left) od fs -> length d = psize left ->
+  getc left (add_others d od) c == getc left d c + qsum (map (fun f => f c) fs) /\
+  length (add_others d od) = length d.
+Proof.
+  intros F. revert d. induction F as [|vp f od fs A F IH]; intros d LD; simpl.
+  - split; [lra | auto].
+  - unfold add_others in *. simpl.
+    assert (length (add_pairs d (snd vp) (fst vp)) = length d) as L1
+      by (rewrite add_pairs_gen; apply gen_pairs_length).
+    destruct (IH (add_pairs d (snd vp) (fst vp))) as [E L]; [lia|].
+    split; [|lia]. rewrite E. rewrite (A d c LD). lra.
+Qed.
+
+(* remap = bring a row of another package into this package's order *)
+Lemma remap_getc left right row r : remap left right row = Ok r ->
+  wf_pkg left -> wf_pkg right -> length row = psize right ->
+  length r = psize left /\ forall c, getc left r c == getc right row c.
+Proof.
+  unfold remap. intros H WL WR LR.
+  destruct (overlap left right (nz_keys row)) as [pr|] eqn:OV; simpl in H; [|discriminate].
+  inversion H; subst. split.
+  - rewrite set_pairs_gen, gen_pairs_length. apply vzero_length.
+  - intros c. rewrite set_pairs_gen.
+    destruct (pairs_getc (fun _ x => x) left right (nz_keys row) pr (vzero (psize left)) row c OV WL WR) as [E|[E1 E2]].
+    + apply nz_keys_rows_nodup.
+    + intros i I. apply nz_keys_rows_lt in I. lia.
+    + apply nz_keys_covers.
+    + apply vzero_length.
+    + intros j y Y. rewrite nthq_vzero. exact Y.
+    + exact E.
+    + rewrite getc_none by auto. rewrite E2. reflexivity.
+Qed.
+
+(* ---------- SparseVector.mix_from ---------- *)
+Definition scval (p : pkg) (self : vec) (c : nat) (o : option vec) : Q :=
+  match o with None => getc p self c | Some v => getc p v c end.
+
+Lemma inject_nat_succ n : inject_Z (Z.of_nat (S n)) == inject_Z (Z.of_nat n) + 1.
+Proof. rewrite Nat2Z.inj_succ. unfold Z.succ. rewrite inject_Z_plus. reflexivity. Qed.
+
+Lemma scval_split p self c l :
+  qsum (map (scval p self c) l) ==
+  qsum (map (fun v => getc p v c) (somes l)) + inject_Z (Z.of_nat (count_self l)) * getc p self c.
+Proof.
+  induction l as [|[v|] l IH].
+  - simpl. unfold inject_Z. lra.
+  - simpl. rewrite IH. lra.
+  - cbn [map qsum fold_right somes count_self scval]. rewrite inject_nat_succ.
+    change (fold_right Qplus 0 (map (scval p self c) l)) with (qsum (map (scval p self c) l)).
+    rewrite IH.
+    set (a := qsum (map (fun v => getc p v c) (somes l))).
+    set (b := inject_Z (Z.of_nat (count_self l))). set (g := getc p self c).
+    unfold qsum in a. fold a. ring.
+Qed.
+
+Lemma somes_in v l : In v (somes l) -> In (Some v) l.
+Proof. induction l as [|[w|] l IH]; simpl; intros H; auto. destruct H; [left; congruence | right; auto]. Qed.
+
+Lemma sv_mix_from_getc p self others c :
+  (forall v, In (Some v) others -> length v = length self) ->
+  getc p (sv_mix_from self others) c == qsum (map (scval p self c) others) /\
+  length (sv_mix_from self others) = length self.
+Proof.
+  intros HL. unfold sv_mix_from. destruct others as [|o others'] eqn:EO.
+  - simpl. rewrite getc_vzero. split; [reflexivity | apply vzero_length].
+  - rewrite <- EO in *. clear EO o others'.
+    assert (forall v, In v (somes others) -> length v = length self) as HS
+      by (intros v I; apply HL; apply somes_in; auto).
+    rewrite scval_split.
+    destruct (count_self others) as [|[|k]] eqn:EC.
+    + split; [|apply vsum_length; auto]. rewrite getc_vsum by auto.
+      change (inject_Z (Z.of_nat 0)) with 0. lra.
+    + assert (forall v, In v (somes others ++ [self]) -> length v = length self) as HS'
+        by (intros v I; apply in_app_iff in I; destruct I as [I|[I|[]]]; [auto | subst; auto]).
+      split; [|apply vsum_length; auto]. rewrite getc_vsum by auto.
+      rewrite map_app, qsum_app. simpl. change (inject_Z (Z.of_nat 1)) with 1. lra.
+    + assert (forall v, In v (somes others ++ [vscale (inject_Z (Z.of_nat (S (S k)))) self]) -> length v = length self) as HS'.
+      { intros v I; apply in_app_iff in I; destruct I as [I|[I|[]]]; [auto|]. subst. apply vscale_length. }
+      split; [|apply vsum_length; auto]. rewrite getc_vsum by auto.
+      rewrite map_app, qsum_app. simpl. rewrite getc_vscale. lra.
 Qed.
